@@ -178,8 +178,150 @@ def w_readonly(case):
     return res
 
 
+def self_image(ext, entries):
+    """an image file of type ext whose first surface carries `entries` [(name, dirbyte, length)]"""
+    from lib import flux
+    if ext in ('hfe', 'mfm'):
+        spt = 10 if ext == 'hfe' else 18
+        es, pos = [], 2
+        for nm, d, ln in entries:
+            es.append(disc.Entry(nm, bytes([d]), False, 0x1900, 0x8023, ln, pos))
+            pos += max(1, (ln + 255) // 256)
+        es.reverse()
+        surf = disc.acorn_surface(disc.Volume(es, b'SELF', 0, 0, 2 * spt), 2 * spt, b's')
+        return flux.hfe_from_surfaces([surf], 2, 10, 'FM', 1) if ext == 'hfe' else flux.hxcmfm_from_surfaces([surf], 2, 18)
+    spt = 18 if ext in ('sdd', 'ddd') else 10
+    surf = hostile_surface(entries, 40, spt)
+    if ext in ('ssd', 'sdd'):
+        return surf
+    if ext in ('dsd', 'ddd'):
+        other = hostile_surface([(b'SIDE2', 0x24, 10)], 40, spt)
+        return disc.interleave(surf, other, spt)
+    if ext == 'mmb':
+        s80 = hostile_surface(entries, 80, 10)
+        return disc.mmb_header({0: 0x0F}) + s80.ljust(disc.MMB_DISC, b'\0')
+    raise ValueError(ext)
+
+
+def w_self(case):
+    """the catalogue holds a file whose host name equals the name of an attached image and the destination is the
+    image's own directory (by several spellings): no pre-existing file - least of all an image - may change"""
+    res = mkres()
+    try:
+        ext, z = case['ext'], case['gz']
+        iname = 'x.' + ext + ('.gz' if z else '')
+        if case['mode'] == 'cur':                     # name lies in the current directory: host name = NAME
+            entry, cur = (iname.encode(), 0x24, 300), '$'
+        else:                                          # host name = D.NAME with D = 'x'
+            entry, cur = (iname[2:].encode(), ord('x'), 300), '$'
+        if len(entry[0]) > 7:
+            return res
+        victim = case['victim']                        # 'self' or 'other' (a second attached image carries the colliding name)
+        entries = [entry, (b'OK', 0x24, 10)]
+        data = self_image(ext, entries if victim == 'self' else [(b'PLAIN', 0x24, 10)])
+        root = make_sandbox(iname, images.gz(data) if z else data)
+        argv = ['--file', 'img/' + iname]
+        if victim == 'other':
+            dfsrun.write(os.path.join(root, 'img'), 'reader.ssd', hostile_surface(entries))
+            argv = ['--file', 'img/reader.ssd', '--file', 'img/' + iname]
+        os.symlink('img', os.path.join(root, 'lnk'))
+        os.link(os.path.join(root, 'img', iname), os.path.join(root, 'dest2', iname))     # the image under a second name
+        dest = {'plain': 'img', 'slash': 'img/', 'dot': './img', 'abs': root + '/img', 'symlink': 'lnk', 'dotdot': 'dest/../img',
+                'hardlink': 'dest2'}[case['dest']]
+        before = snapshot(root)
+        r = dfsrun.dfs(BIN, argv + ['--dir', cur, 'extract-files', dest], root)
+        res['n'] += 1
+        after = snapshot(root)
+        changed = sorted(p for p in before if before.get(p) != after.get(p))
+        created = sorted(p for p in after if p not in before)
+        destrel = {'hardlink': 'dest2'}.get(case['dest'], 'img')
+        if r.sig or r.timeout:
+            res['viol'].append(('C12:self:crash', r.status()))
+        elif changed:
+            kind = 'image-modified' if any(c.endswith(iname) or c.endswith('reader.ssd') for c in changed) else 'existing-path-changed'
+            bump(res, kind)
+            res['viol'].append(('C12:self:%s:%s' % (kind, victim), 'image %s holds a file extracted as %s; extract-files %s changed %s (exit %s)'
+                                % (iname, iname, dest, changed[:3], r.status())))
+        elif any(os.path.dirname(c) != destrel for c in created):
+            res['viol'].append(('C12:self:created-outside-destination', str(created[:3])))
+        elif r.exit != 0 and not r.err.strip():
+            res['viol'].append(('C12:self:silent-failure', r.status()))
+        else:
+            bump(res, 'refused' if r.exit else 'no-collision')
+        res['nt'].append((ext, z, case['mode'], victim, case['dest']))
+        if res['viol']:
+            res['case'] = case
+    except Exception:
+        import traceback
+        res['viol'].append(('HARNESS', traceback.format_exc()))
+        res['case'] = case
+    return res
+
+
+BADIMG = ['missing.ssd', 'missing.ssd.gz', 'missing.hfe.gz', 'dir.ssd', 'dir.ssd.gz', 'empty.ssd', 'empty.ssd.gz', 'garbage.ssd.gz',
+          'trunc.ssd.gz', 'trunc.mmb.gz', 'noext', 'only.gz', 'valid.xyz.gz', 'valid.ssd.gz', 'valid.hfe.gz', 'bad.hfe.gz', 'bad.mfm.gz']
+TMPCMDS = [['cat'], ['info', '*'], ['free'], ['type', 'HELLO'], ['extract-files', 'dest'], ['extract-unused', 'dest'], ['show-titles'],
+           ['sector-map'], ['--show-config', 'cat']]
+
+
+def w_tmp(case):
+    """failing and succeeding image opens with TMPDIR inside the sandbox: nothing may be left behind anywhere"""
+    res = mkres()
+    try:
+        v = images.valid_images(small=True)
+        root = make_sandbox('valid.ssd', v['ssd'])
+        img = os.path.join(root, 'img')
+        os.makedirs(os.path.join(root, 'tmp'))
+        for d in ('dir.ssd', 'dir.ssd.gz'):
+            os.makedirs(os.path.join(img, d))
+        dfsrun.write(img, 'empty.ssd', b'')
+        dfsrun.write(img, 'empty.ssd.gz', b'')
+        dfsrun.write(img, 'garbage.ssd.gz', b'this is not gzip' * 40)
+        dfsrun.write(img, 'trunc.ssd.gz', images.gz(v['ssd'])[:-9])
+        dfsrun.write(img, 'trunc.mmb.gz', images.gz(v['mmb'])[:300])
+        dfsrun.write(img, 'noext', v['ssd'])
+        dfsrun.write(img, 'only.gz', images.gz(v['ssd']))
+        dfsrun.write(img, 'valid.xyz.gz', images.gz(v['ssd']))
+        dfsrun.write(img, 'valid.ssd.gz', images.gz(v['ssd']))
+        dfsrun.write(img, 'valid.hfe.gz', images.gz(v['hfe']))
+        dfsrun.write(img, 'bad.hfe.gz', images.gz(v['hfe'][:700]))
+        dfsrun.write(img, 'bad.mfm.gz', images.gz(v['mfm'][:100]))
+        env = {'TMPDIR': os.path.join(root, 'tmp')}
+        for first in ([], ['--file', 'img/valid.ssd.gz'], ['--file', 'img/valid.ssd']):
+            for cmd in TMPCMDS:
+                before = snapshot(root)
+                argv = first + ['--file', 'img/' + case['img']] + cmd
+                if cmd[0] == '--show-config':
+                    argv = ['--show-config'] + first + ['--file', 'img/' + case['img']] + cmd[1:]
+                r = dfsrun.dfs(BIN, argv, root, env=env)
+                res['n'] += 1
+                after = snapshot(root)
+                diff = sorted(p for p in set(after) | set(before) if after.get(p) != before.get(p))
+                stray = [p for p in diff if not (cmd[0].startswith('extract') and os.path.dirname(p) == 'dest' and p not in before)]
+                if r.sig or r.timeout:
+                    res['viol'].append(('C12:tmp:crash', '%r: %s' % (argv, r.status())))
+                elif stray:
+                    where = 'TMPDIR' if stray[0].startswith('tmp') else 'elsewhere'
+                    bump(res, 'left-behind')
+                    res['viol'].append(('C12:tmp:file-left-behind:%s:%s' % (where, 'failed-open' if r.exit else 'success'),
+                                        'dfs %s (exit %s) left %s' % (' '.join(argv), r.status(), stray[:3])))
+                else:
+                    bump(res, 'clean-exit%d' % r.exit)
+                for p in diff:                      # reset dest for the next command
+                    if p not in before and os.path.isfile(os.path.join(root, p)):
+                        os.unlink(os.path.join(root, p))
+        res['nt'].append(('tmp', case['img']))
+        if res['viol']:
+            res['case'] = case
+    except Exception:
+        import traceback
+        res['viol'].append(('HARNESS', traceback.format_exc()))
+        res['case'] = case
+    return res
+
+
 def worker(case):
-    return {'extract': w_extract, 'readonly': w_readonly}[case['w']](case)
+    return {'extract': w_extract, 'readonly': w_readonly, 'self': w_self, 'tmp': w_tmp}[case['w']](case)
 
 
 ALPHA = [0x2F, 0x2E, 0x2D, 0x61, 0x01, 0x7E]
@@ -239,7 +381,23 @@ def fam_readonly(tier):
             yield {'w': 'readonly', 'ext': e, 'gz': z}
 
 
-FAMILIES = [('R-all-commands-valid-images', fam_readonly), ('L-long-destination-paths', fam_longdest), ('D-directory-bytes', fam_dirs), ('N-hostile-names', fam_names)]
+def fam_self(tier):
+    """catalogue entry whose host name equals an attached image's file name (every extension, plain/.gz, current-directory and D.-prefixed spelling), destination = the image's directory by 7 spellings (incl. symlink and hard link); victim = the image read or a second attached image"""
+    for ext in images.EXTS:
+        for z in (False, True):
+            for mode in ('cur', 'prefixed'):
+                for victim in ('self', 'other'):
+                    for dest in ('plain', 'slash', 'dot', 'abs', 'symlink', 'dotdot', 'hardlink'):
+                        yield {'w': 'self', 'ext': ext, 'gz': z, 'mode': mode, 'victim': victim, 'dest': dest}
+
+
+def fam_tmp(tier):
+    """17 image arguments that cannot be opened or are corrupt (missing, directory, empty, garbage/truncated .gz, bad extension) and valid ones x 9 commands x {alone, after a valid .gz image, after a valid plain image}, TMPDIR inside the sandbox: whole tree compared"""
+    for i in BADIMG:
+        yield {'w': 'tmp', 'img': i}
+
+
+FAMILIES = [('S-image-named-like-a-catalogued-file', fam_self), ('T-temporary-files-and-failed-opens', fam_tmp), ('R-all-commands-valid-images', fam_readonly), ('L-long-destination-paths', fam_longdest), ('D-directory-bytes', fam_dirs), ('N-hostile-names', fam_names)]
 
 
 def main(tier, seed):
